@@ -163,6 +163,9 @@ func CheckSchemaAt(seq []exact.Member, bits bool, place int) (class, detail stri
 		return "parse", err.Error()
 	}
 	errs := ms.Process()
+	if len(b.String())%3 == 0 {
+		errs = ms.Process() // every third schema is processed twice: the second run must say the same
+	}
 	if invalidAt >= 0 {
 		if len(errs) == 0 {
 			return "schema-accepts-invalid", fmt.Sprintf("[%s] processed cleanly, reference: %s at member %d", seqString(seq), reason, invalidAt)
@@ -359,6 +362,9 @@ func Literal(j *job.Job, s *job.Sink) {
 						continue
 					}
 					errs := ms.Process()
+					if len(text)%3 == 0 {
+						errs = ms.Process()
+					}
 					if !inRange || !preOK {
 						if len(errs) == 0 {
 							s.Violation(idx, j.CaseID(idx), "C14.literal", "accepts-out-of-range", fmt.Sprintf("%s %s of b is outside %s..%s and was accepted: %s", vk, lit, lo, hi, text), map[string]any{"text": text}, nil)
